@@ -101,6 +101,8 @@ class Expr:
                 bail(node, f"unknown free name {n}")
             return self.env[n]
         if isinstance(node, ast.BinOp):
+            if isinstance(node.op, ast.Add) and self.ty(node.left) == "str" and self.ty(node.right) == "str":
+                return "str"
             return "Z"
         if isinstance(node, ast.Compare):
             return "bool"
@@ -170,6 +172,8 @@ class Expr:
                 return f"({node.left.value ** node.right.value})%Z"
             if type(node.op) not in ops:
                 bail(node, "binop")
+            if isinstance(node.op, ast.Add) and self.ty(node.left) == "str" and self.ty(node.right) == "str":
+                return f"({self.tr(node.left)} ++ {self.tr(node.right)})"
             if self.ty(node.left) != "Z" or self.ty(node.right) != "Z":
                 bail(node, "non-integer arithmetic")
             return f"({self.tr(node.left)} {ops[type(node.op)]} {self.tr(node.right)})%Z"
